@@ -31,7 +31,7 @@ func init() {
 }
 
 var readEvents = map[string]bool{"Reset": true, "Submit": true, "IntroSegment": true, "Return": true,
-	"ReadBegin": true, "ReadEnd": true, "ReaderOpen": true, "ReaderObs": true, "ReaderClose": true}
+	"ReadBegin": true, "ReadEnd": true, "ReaderOpenBegin": true, "ReaderObs": true, "ReaderClose": true}
 
 func records(evs []sx.Event) []any {
 	var out []any
@@ -177,7 +177,7 @@ func runScheduled(c *core.Ctx, name string, sch sx.Schedule) (*outcome, error) {
 	base := c.TempDir("c04s")
 	defer os.RemoveAll(base)
 	for i := range sch.Steps {
-		if b := sch.Steps[i].Batch; b != nil {
+		if b := sch.Steps[i].Batch; b != nil && len(name)%2 == 0 {
 			nb := *b
 			nb.Puts = append(append([]string{}, b.Puts...), "m")
 			sch.Steps[i].Batch = &nb
@@ -285,7 +285,12 @@ func run(c *core.Ctx) error {
 		if i%4 == 2 {
 			kv = map[string]interface{}{"scorchPersisterOptions": map[string]interface{}{"NumPersisterWorkers": 3, "MaxSizeInMemoryMergePerWorker": 1}}
 		}
-		wl := sx.RandomWorkload(rng, c.Pick(30, 60), 2, safe, kv).WithMarker()
+		wl := sx.RandomWorkload(rng, c.Pick(30, 60), 2, safe, kv)
+		if i%2 == 0 {
+			// the marker document makes every segment carry a deletion soon; half of
+			// the runs go without it (searches are then matched against every prefix)
+			wl = wl.WithMarker()
+		}
 		name := fmt.Sprintf("scorch-run-%d(safe=%v)", i, safe)
 		o, err := runScorch(c, name, wl, c.Seed*100+int64(i))
 		if err != nil {
@@ -396,7 +401,7 @@ func judge(c *core.Ctx, outs []*outcome) {
 			inv = "TraceNotAccepted"
 		}
 		bad := owner[idx]
-		c.Violation("c04/"+inv, fmt.Sprintf("%s violated in %s at record %v", inv, outs[bad].Name, recs[idx]), map[string]any{"scenario": outs[bad].Name, "record": recs[idx]})
+		c.Violation("c04/"+inv, fmt.Sprintf("%s violated in %s at record %v", inv, outs[bad].Name, recs[idx]), map[string]any{"scenario": outs[bad].Name, "record": recs[idx], "trace": outs[bad].Records})
 		delete(live, bad)
 	}
 }
